@@ -6,7 +6,7 @@ import numpy as np
 from ..runner import Acc, HarnessError
 from ..refmodel import Fmt
 from .. import alphabet as al
-from ..common import Fxp, codes, flags, fmt_of, reset_class_state, build
+from ..common import AGED, build_aged, Fxp, codes, flags, fmt_of, reset_class_state, build
 
 ID = 'C16'
 RULE = ('comparison cases = (format pair, operator of 6, operand kinds {Fxp/Fxp, Fxp/number, number/Fxp}, code pair) compared with the relation '
@@ -27,6 +27,8 @@ def build(f, cs, shape, by):
     """by='raw': codes written raw (value type unset); by='value': from the exact values, ints when n_frac <= 0 (integer value type)"""
     if by == 'raw':
         return Fxp(np.array(cs, dtype=np.int64).reshape(shape), f.signed, f.n_word, f.n_frac, raw=True)
+    if by in AGED:                       # the operand reached through a history (common.build_aged)
+        return build_aged(f, list(cs), tuple(len(cs) if d == -1 else d for d in shape), by)
     if f.n_frac <= 0:
         arr = np.array([c << -f.n_frac for c in cs], dtype=np.int64).reshape(shape)
     else:
@@ -247,6 +249,8 @@ def bounds(tier, seed):
                                  'Fxp/number and number/Fxp for pairs with n_word<=3' % k,
             'comparisons_adjacent': 'format pairs from n_word in %s x n_frac {0, mid, n}: every boundary/walking-bit code of x against the neighbouring '
                                     'codes floor/ceil(+-1) of the y grid, all 3 operand kinds' % (ADJ_WORDS,),
+            'comparisons_far': 'format pairs from n_word in %s x n_frac {-8, 0, n+8, 44, 60} (binary points up to 68 bits apart): extremes, 0, +-1, mid codes '
+                               'against the neighbouring codes and the extremes of the other grid, all 3 operand kinds' % (FAR_WORDS,),
             'conversions': 'every code of every format n_word<=8, n_frac -1..n_word+1: get_val, astype(float), float(), astype(int), int(), bool(), '
                            'raw(), uraw(), x(); arrays and scalars; compare/convert, in-place write (directly and through the parent of a slice view), compare/convert '
                            'again; 2-d objects in transposed / Fortran / reversed layouts', 'seed': seed}
@@ -262,7 +266,16 @@ def shards(tier, seed):
         out.append({'part': 'A', 'nw': nw, 'seed': seed})
     for nw in range(1, 9):
         out.append({'part': 'V', 'nw': nw})
+    for nw in FAR_WORDS:
+        out.append({'part': 'F', 'nw': nw})
     return out
+
+
+FAR_WORDS = (8, 24)
+
+
+def far_formats():
+    return [Fmt(s, nw, nf) for s in (True, False) for nw in FAR_WORDS for nf in (-8, 0, nw + 8, 44, 60)]
 
 
 def adj_formats():
@@ -280,6 +293,10 @@ def run_shard(sh):
             ys = list(range(fym.lo, fym.hi + 1))
             judge_cmp(acc, fxm, fym, xs, ys, 'ff', 'S')
             judge_cmp(acc, fxm, fym, xs, ys, 'ff', 'S', 'value')
+            for how in (AGED if max(fxm.n_word, fym.n_word) <= 2 else (AGED[(sh['i'] + fs.index(fym)) % len(AGED)],)):
+                judge_cmp(acc, fxm, fym, xs, ys, 'ff', 'S', how)
+                if fxm.n_word <= 3 and fym.n_word <= 3:
+                    judge_cmp(acc, fxm, fym, xs, ys, 'fn', 'S', how)
             if fxm.n_word <= 3 and fym.n_word <= 3:
                 judge_cmp(acc, fxm, fym, xs, ys, 'fn', 'S')
                 judge_cmp(acc, fxm, fym, xs, ys, 'nf', 'S')
@@ -296,6 +313,19 @@ def run_shard(sh):
                     for kind in ('ff', 'fn', 'nf'):
                         judge_cmp(acc, fxm, fym, [a], ys, kind, 'A')
                     judge_cmp(acc, fxm, fym, [a], ys, 'ff', 'A', 'value')
+    elif sh['part'] == 'F':
+        # formats whose binary points are far apart (aligning one operand to the other shifts it by up to 68 bits)
+        ffs = far_formats()
+        for fxm in [f for f in ffs if f.n_word == sh['nw']]:
+            xs = sorted({fxm.lo, fxm.lo + 1, 0, 1, fxm.hi // 2 + 1, fxm.hi - 1, fxm.hi} | ({-1, fxm.lo // 2} if fxm.signed else set()))
+            for fym in ffs:
+                for a in xs:
+                    ys = sorted(set(neighbours(fxm, a, fym)) | {fym.lo, fym.hi, 0, 1, fym.hi // 2 + 1} | ({-1} if fym.signed else set()))
+                    for kind in ('ff', 'fn', 'nf'):
+                        judge_cmp(acc, fxm, fym, [a], ys, kind, 'F')
+                ys = sorted({fym.lo, fym.hi, 0, 1, fym.hi // 2 + 1} | ({-1, fym.lo // 2} if fym.signed else set()))
+                judge_cmp(acc, fxm, fym, xs, ys, 'ff', 'F')
+                judge_cmp(acc, fxm, fym, xs, ys, 'ff', 'F', 'value')
     else:
         nw = sh['nw']
         for s in (True, False):
